@@ -27,6 +27,9 @@ Definition BFGS : Z := 3.
 
 (* ScipyOptimizer.__call__ : (optimizer afterwards, individual afterwards, did it end normally) *)
 Definition optimize (o : optimizer) (i : indiv) (r1 r2 : run) : optimizer * indiv * bool :=
+  match consts i with
+  | [] => (o, set_params i [], true)             (* num_params == 0: scipy is not consulted, the request is cleared *)
+  | _ :: _ =>
   match r1 with
   | Returns tr fin => (o, set_params (after_trials i tr) fin, true)
   | RaisesTypeError tr =>
@@ -36,6 +39,7 @@ Definition optimize (o : optimizer) (i : indiv) (r1 r2 : run) : optimizer * indi
     | Returns tr2 fin2 => (mkOpt (method o), set_params (after_trials i1 tr2) fin2, true)   (* ... and restored *)
     | RaisesTypeError tr2 => (o1, after_trials i1 tr2, false)                              (* second TypeError propagates *)
     end
+  end
   end.
 
 (* LocalOptFitnessFunction.__call__ : optimize only if requested, then evaluate the base fitness afresh *)
